@@ -7,6 +7,7 @@ import genprog as G
 CONFIGS = [("0", "0"), ("0", "1"), ("1", "0"), ("1", "1")]
 CHECKS = {}
 
+
 def check(pid):
     def deco(f):
         CHECKS[pid] = f
@@ -250,3 +251,5 @@ def c10(res, rng, tier):
         "opcode_histogram_generated": hist})
     res.samples = [{"pickle_hex": cmeta[i][0].hex()[:100], "cut": cmeta[i][1], "impl": impl[i][:80]}
                    for i in range(0, len(cases), max(1, len(cases) // 6))]
+
+import props_dict
